@@ -88,7 +88,7 @@ br_ecdsa_i31_vrfy_raw(const br_ec_impl *impl,
 
 	/*
 	 * Get modulus; then decode the r and s values. They must be
-	 * lower than the modulus, and s must not be null.
+	 * lower than the modulus, and must not be null.
 	 */
 	nlen = cd->order_len;
 	br_i31_decode(n, cd->order, nlen);
@@ -99,7 +99,7 @@ br_ecdsa_i31_vrfy_raw(const br_ec_impl *impl,
 	if (!br_i31_decode_mod(s, (const unsigned char *)sig + rlen, rlen, n)) {
 		return 0;
 	}
-	if (br_i31_iszero(s)) {
+	if (br_i31_iszero(r) || br_i31_iszero(s)) {
 		return 0;
 	}
 
@@ -144,8 +144,18 @@ br_ecdsa_i31_vrfy_raw(const br_ec_impl *impl,
 	 */
 	ulen = cd->generator_len;
 	memcpy(eU, pk->q, ulen);
-	res = impl->muladd(eU, NULL, ulen,
-		tx, nlen, ty, nlen, cd->curve);
+	if (br_i31_iszero(t2)) {
+		/*
+		 * The (truncated) hash value is a multiple of the curve
+		 * order: the term y*G vanishes, and muladd() would
+		 * report an error for a zero multiplier. Nothing here
+		 * is secret, so we may branch on it.
+		 */
+		res = impl->mul(eU, ulen, tx, nlen, cd->curve);
+	} else {
+		res = impl->muladd(eU, NULL, ulen,
+			tx, nlen, ty, nlen, cd->curve);
+	}
 
 	/*
 	 * Get the X coordinate, reduce modulo the curve order, and
